@@ -228,7 +228,7 @@ pub fn check(ctx: &mut Ctx) -> i32 {
             Err(e) => acc.note(format!("regress file {} unreadable: {}", path, e)),
         }
     }
-    let n = ctx.by(60, 1500);
+    let n = ctx.by(400, 1500);
     let found = explore(ctx, &acc, "l1-decoder-segmentations", "stream", &strategy, n, ctx.workers, |c: &StreamCase| {
         run_case_tier(c, thorough)
     });
